@@ -307,3 +307,80 @@ Proof.
   unfold path_calls_confined. rewrite forallb_forall. intros H c o Hc F.
   specialize (H _ Hc). simpl in H. rewrite F in H. apply str_eqb_eq. exact H.
 Qed.
+
+(* ------------------------------------------------------------------ 7z FilesInfo properties *)
+Lemma fparse_ignored ps : forall st, fparse st ps = fparse st (filter (fun p => negb (is_ignored p)) ps).
+Proof.
+  induction ps as [|p r IH]; intro st; [reflexivity|].
+  destruct p as [bits|ext names|d v|id]; cbn [filter is_ignored negb fparse fstep].
+  - apply IH.
+  - destruct ext; [reflexivity | apply IH].
+  - apply IH.
+  - apply IH.
+Qed.
+
+Lemma parse_files_info_ignored n ps :
+  parse_files_info n ps = parse_files_info n (filter (fun p => negb (is_ignored p)) ps).
+Proof. unfold parse_files_info. rewrite <- fparse_ignored. reflexivity. Qed.
+
+Definition has_stream (e : entry) : bool := negb (e_empty e).
+
+Lemma pick_drop k es : forall sizes fidx streams cnt,
+  pick k (build_files es sizes) (assign (build_files es sizes) fidx streams cnt)
+  = pick k (build_files (filter has_stream es) sizes)
+           (assign (build_files (filter has_stream es) sizes) fidx streams cnt).
+Proof.
+  induction es as [|e r IH]; intros sizes fidx streams cnt; [reflexivity|].
+  cbn [filter]. replace (has_stream e) with (negb (e_empty e)) by reflexivity. destruct (e_empty e) eqn:E; cbn [negb].
+  - cbn [build_files]. rewrite E. cbn [orb]. destruct streams as [|ns s']; cbn [assign f_dir pick]; apply IH.
+  - cbn [build_files]. rewrite E. cbn [orb].
+    destruct (N.testbit (e_attr e) 4).
+    + destruct streams as [|ns s']; cbn [assign f_dir pick]; apply IH.
+    + destruct sizes as [|sz sizes']; destruct streams as [|ns s']; cbn [assign f_dir pick];
+        try apply IH;
+        destruct (ns <=? cnt + 1)%N; cbn [pick]; destruct (Nat.eqb fidx k); rewrite IH; reflexivity.
+Qed.
+
+Lemma extract_folders_ext cwd base dec okd okw fs a fs' a' n :
+  (forall k, pick k fs a = pick k fs' a') ->
+  forall k, extract_folders cwd base dec okd okw fs a k n = extract_folders cwd base dec okd okw fs' a' k n.
+Proof.
+  intro H. induction n as [|n IH]; intro k; cbn [extract_folders]; [reflexivity|].
+  rewrite (H k). destruct (pick k fs' a'); [apply IH|].
+  destruct (dec k); [|reflexivity]. destruct (write_files _ _ _ _ _ _ _) as [es ok].
+  destruct ok; [rewrite IH|]; reflexivity.
+Qed.
+
+Lemma extractall_drop cwd base dec okd okw h :
+  extractall cwd base dec okd okw h = extractall cwd base dec okd okw (drop_streamless h).
+Proof.
+  unfold extractall, files_of, folder_of, drop_streamless. cbn [h_entries h_sizes h_streams].
+  rewrite (extract_folders_ext cwd base dec okd okw _ _
+             (build_files (filter has_stream (h_entries h)) (h_sizes h))
+             (assign (build_files (filter has_stream (h_entries h)) (h_sizes h)) 0 (h_streams h) 0%N)).
+  - reflexivity.
+  - intro k. apply pick_drop.
+Qed.
+
+Lemma to_process_drop skip max_mem es : forall sizes,
+  filter (fun f => negb (f_dir f) && negb (skip (f_name f)) && negb (max_mem <? f_size f)) (build_files es sizes)
+  = filter (fun f => negb (f_dir f) && negb (skip (f_name f)) && negb (max_mem <? f_size f))
+           (build_files (filter has_stream es) sizes).
+Proof.
+  induction es as [|e r IH]; intro sizes; [reflexivity|].
+  cbn [filter]. replace (has_stream e) with (negb (e_empty e)) by reflexivity. destruct (e_empty e) eqn:E; cbn [negb].
+  - cbn [build_files]. rewrite E. cbn [orb filter f_dir negb andb]. apply IH.
+  - cbn [build_files]. rewrite E. cbn [orb]. destruct (N.testbit (e_attr e) 4).
+    + cbn [filter f_dir negb andb]. apply IH.
+    + destruct sizes as [|sz sizes']; cbn [filter]; rewrite IH; reflexivity.
+Qed.
+
+Lemma run_7z_drop cwd base dec okd okw skip max_mem host h :
+  run_7z cwd base dec okd okw skip max_mem host h
+  = run_7z cwd base dec okd okw skip max_mem host (drop_streamless h).
+Proof.
+  unfold run_7z. rewrite <- extractall_drop.
+  assert (T : to_process skip max_mem h = to_process skip max_mem (drop_streamless h)).
+  { unfold to_process, files_of, drop_streamless. cbn [h_entries h_sizes]. apply to_process_drop. }
+  rewrite T. reflexivity.
+Qed.
